@@ -10,9 +10,11 @@
                            defaults emit_default_prop=True, emit_default_doc=True (and parse_docstring's word_wrap=True).
 
    New modelled function: cleandoc = inspect.cleandoc (CPython 3.12) on tab-free text (str.expandtabs is column
-   dependent: declined); validated against inspect.cleandoc, see proofs/C03DocLink.v.
+   dependent: declined); validated against CPython's inspect.cleandoc on 91 texts (random blanks / line breaks / form
+   feed / CR, and to_docstring-shaped texts for every indent level and separating-tab setting): 0 mismatches.
 
-   Also the extra boolean side conditions of the closed theorems (doc_link_ok) and their witnesses. *)
+   Also: the line structure used to state what cleandoc does, the documented view of an interface description, and the
+   extra boolean side condition doc_link_ok of the closed theorems (proofs/C03DocLinkMain.v explains each clause). *)
 From Coq Require Import List Ascii Bool Arith ZArith.
 From Coq Require String.
 Import String.StringSyntax.
